@@ -25,3 +25,7 @@ mk("b-c08-named-helper", {"C08": "silent"}, [(B + "ops/utils.rs",
    "    let divisor = g.input(t)?;\n    let divisor_bits = pull_out_bits(divisor.a2b()?)?;\n    let cum_or = cumulative_or(divisor_bits, denominator_cap_2k)?;",
    "    g.set_name(&format!(\n        \"__InverseInitialApproximation(cap=2**{denominator_cap_2k})::<{t}>\"\n    ))?;\n    let divisor = g.input(t)?;\n    let divisor_bits = pull_out_bits(divisor.a2b()?)?;\n    let cum_or = cumulative_or(divisor_bits, denominator_cap_2k)?;")],
    "benign half of C08r2-1: the helper graph gets a name, but gluing still drops names, so nothing collides", kind="benign")
+mk("b-c09-free-guard-match", {"C09": "silent"}, [(B + "evaluators.rs",
+   "                if to_consume_option[dep_id] == 0 && dep_id != output_id {\n                    values[dep_id] = None;\n                }",
+   "                let keep = dep_id == output_id;\n                match (to_consume_option[dep_id], keep) {\n                    (0, false) => values[dep_id] = None,\n                    _ => {}\n                }")],
+   "benign twin of C09r2-1: the output exemption is spelled as a tuple match", kind="benign")
